@@ -20,7 +20,7 @@
    - StoreSector's choice among the empty slots of writable volumes is carried by the operation
      (validated by the model), so the theorems hold for every choice the SQL allows. *)
 From HostdBase Require Import Base.
-From HostdStorage Require Import Model Lemmas Proofs Proofs2.
+From HostdStorage Require Import Model Lemmas Proofs Proofs2 Proofs3.
 
 (* Each stored sector occupies exactly one slot ... *)
 Theorem c08_sector_in_one_slot : forall (l : list op) v i v' i' r,
@@ -46,6 +46,14 @@ Theorem c08_counters_are_recounts : forall (l : list op),
   mTemp (mets s) = Z.of_nat (length (temps s)).
 Proof. exact (fun l => counters_exact (runs init l) (inv_runs l init inv_init)). Qed.
 Print Assumptions c08_counters_are_recounts.
+
+(* hostd's own guards on these counters ("negative stat value", "volume usage is negative") never
+   fire in a reachable state; the only panics left are the developer errors of [dev_error]
+   (Grow/Shrink to 0 sectors, Shrink above the current size, a self-swap out of range). *)
+Theorem c08_counter_guards_never_fire : forall (l : list op) o,
+  dev_error (runs init l) o = false -> is_panic_obs (snd (step (runs init l) o)) = false.
+Proof. exact (fun l o => no_guard_fires (runs init l) o (inv_runs l init inv_init)). Qed.
+Print Assumptions c08_counter_guards_never_fire.
 
 (* The lost-sector metric grows exactly by the occupied slots an operation destroys, and only
    RemoveSector / RemoveVolume change it. *)
